@@ -298,6 +298,11 @@ type c07Obs struct {
 func runC07(k *c07Case, seed uint64, ae string) (*c07Obs, []byte) {
 	payload := payloadBytes(k.Payload, seed)
 	c := restful.NewContainer()
+	if k.Payload%2 == 1 {
+		// configuration calls may be repeated: the last one counts
+		c.EnableContentEncoding(!k.Cont)
+		c.DoNotRecover(true)
+	}
 	c.EnableContentEncoding(k.Cont)
 	c.DoNotRecover(false)
 	if k.CustomRec {
